@@ -181,6 +181,18 @@ CLAIMED.update({
         "_check_parts vs safe_comp and normpath(join) vs resolve on all generated sequences; search: all hostile sequences of <= 3 (quick) / 4 (thorough) "
         "elements in v1 paths, v2 tree keys and names with matching candidates present, snapshotting everything outside the destination.",
         RBTB + " Lexical resolution only: symbolic links already inside the destination are outside the theorem.", "DESIGN.md section 5 C19"),
+    "C11": (
+        "Coq proof (magnet model: hash input is the raw info span; xt table; quote_plus/unquote_plus round trip and separator-freeness; parameter round trip) + extracted-model correspondence + URL-parser search",
+        "Machine-checked proof, for every metafile value with duplicate-free keys and for arbitrary hex-digest functions, that the bytes the magnet model "
+        "hashes are exactly the encoding of the info value, which occurs verbatim as a span of the file; that the xt parameters follow the v1/v2/hybrid x "
+        "requested-version table; that unquote_plus (quote_plus s) = s for every byte string and quote_plus emits none of & = # space ? / :; and that the "
+        "query of the produced URI parses back to exactly the xt values, the name, every tracker URL in order (flattened announce-list, else announce) and "
+        "every web seed in order (list or single string).  Tie: urllib quote_plus/unquote vs the extracted functions on all single bytes, all %XY triples "
+        "and random strings; commands.magnet vs the extracted model for versions 0..3 on created, edited and reference-encoded metafiles with arbitrary "
+        "key sets; search: URIs (library, get_magnet, CLI) parsed with urllib and compared with hashlib digests of the raw info span located by a strict decoder.",
+        "Trusted: Coq kernel; hand models Model/Magnet.v, Model/Uri.v (urllib.parse.quote_plus is standard library: modelled and compared, not verified), "
+        "Model/Bencode.v (pyben); str/bytes collapsed to raw bytes; SHA-1/SHA-256 arbitrary in the theorems, hashlib in the search.",
+        "DESIGN.md section 5 C11"),
 })
 
 PENDING = {
